@@ -157,6 +157,7 @@ TreeBad(T, v, tr) ==
               ELSE IF i = -1 THEN {}
               ELSE TreeBad(T.vars[i], te.body, tr)     \* the body error is that variant's, and only that one's
     [] T.k = "cls" -> ClsTreeBad(T, v, tr)
+    [] T.k = "ndarray" -> {}
 
 (* trace clause for a `tree` event *)
 TreeFails(e) ==
@@ -164,7 +165,7 @@ TreeFails(e) ==
   ELSE IF e.tree.k = "none" THEN {}      \* no ConvertError at all: C01 / C04 report that
   ELSE TreeBad(e.ty, e.val, e.tree)
        \cup (* each child equals the tree the element's own type reports for the sub-value alone *)
-          (IF e.tree.k = "prod" /\ e.ty.k \notin {"union", "tagged", "ann", "sub", "tvar", "enum"}
+          (IF e.tree.k = "prod" /\ e.ty.k \notin {"union", "tagged", "ann", "sub", "tvar", "enum", "ndarray"}
            THEN LET mine == {e.tree.ch[i][2] : i \in {j \in DOMAIN e.tree.ch : e.tree.ch[j][2].k # "dup"}}
                     theirs == {e.alone[i].tree : i \in {j \in DOMAIN e.alone :
                                    e.alone[j].tree.k # "none" /\ Verdict(e.alone[j].ty, e.alone[j].val) = "R"}}
